@@ -40,6 +40,23 @@ def main():
                                           traceback=traceback.format_exc()[-3000:], tier=tier, seed=seed))
             print(f'VIOLATION property={a.pid} replay={p}')
             code = 1
+        elif ctx.violations and not a.replay:
+            # the harness itself stopped (typically on an answer of a shape it did not expect) AFTER its oracles had already found failing
+            # inputs: those findings stand -- report them (known findings excepted) instead of "no verdict"
+            import re as _re
+            known = [k for k in cm.load_known() if k.get('property') == a.pid and k.get('status') == 'open']
+            new = [v for v in ctx.violations if not any(_re.fullmatch(k['sig'], v['sig']) for k in known)]
+            if new:
+                seen = set()
+                for v in new:
+                    if v['sig'] in seen: continue
+                    seen.add(v['sig'])
+                    p = cm.write_replay(ctx, dict(kind='violation', harness_stopped_after=traceback.format_exc()[-1500:], **v))
+                    if len(seen) <= 5: print(f'VIOLATION property={a.pid} replay={p}')
+                code = 1
+            else:
+                print(f'INTERNAL-ERROR in check {a.pid} (not a verdict)')
+                code = 2
         else:
             print(f'INTERNAL-ERROR in check {a.pid} (not a verdict)')
             code = 2
